@@ -25,6 +25,16 @@ check('C20', 'specs/Dewies.tla + harness/c20_dewies.py',
       'non-ASCII decimal digits are outside the claim (DESIGN 8).',
       'case-analytic TLA+ spec, TLC-enumerated cases replayed into the real functions', 'DESIGN.md 5/C20')
 
+check('C19', 'specs/DiskClean.tla + specs/DiskCleanTrace.tla + harness/c19_diskclean.py',
+      'Leg A: TLC explores DiskClean.tla (content pass + network pass of clean() transcribed with the whole-MB accounting and '
+      'the SQL scan orders; <=3 blobs (4 thorough) x 4 classes x 4 sizes x 5x5 limits, two passes with a blob added in between, '
+      '3.8M states) against ten invariants = the clauses of the property, with reachability witnesses. Leg C: 400 (3000) seeded '
+      'scenarios are built through the real storage API with real files, the real DiskSpaceManager.clean() runs, and TLC '
+      'validates each recorded pass against DiskCleanTrace.tla: every clause is evaluated on the real before/after state and '
+      'the reported usage must equal the specified accounting; a different-but-allowed choice of blobs is reported as drift, not as a violation.',
+      'Trusted: sqlite; sparse files stand in for blob bytes (cleanup accounts from the database); one stream per data blob.',
+      'TLC exhaustive model + TLC trace validation of real cleanup passes', 'DESIGN.md 5/C19')
+
 NOT_YET = 'check not built yet in this round (design in DESIGN.md section 5); will be claimed once its driver exists'
 ALL = [f'C{i:02d}' for i in range(1, 21)]
 
